@@ -339,7 +339,7 @@ def oracle_c14(tr, sc, rng):
         return False
 
     seen = {}
-    for kind, key, value, hook, seq in getattr(ctx, 'stat_writes', []):
+    for kind, key, value, hook, seq, _dig in getattr(ctx, 'stat_writes', []):
         if key.type.startswith('timing') or key.type == '_recomputed' or kind == 'inc':
             continue
         if key in seen and not _valeq(seen[key][0], value) and seen[key][2]:
@@ -664,7 +664,7 @@ def oracle_c03(tr, sc):
                 V(
                     'residual_not_true_defect',
                     'Sweeper.compute_residual',
-                    f"{rec['at']} block {rec['block']} slot {rec['slot']} iter {rec['iter']}: reported residual {rec['reported']!r}, defect recomputed from the node values {rec['shadow']!r} (rounding scale {rec['S']:.2e})",
+                    f"{rec['at']} block {rec['block']} slot {rec['slot']} level {rec.get('level', 0)} iter {rec['iter']}: reported residual {rec['reported']!r}, defect recomputed from the node values {rec['shadow']!r} (rounding scale {rec['S']:.2e})",
                     at=rec['at'],
                 )
             res.probe('residual_checked')
@@ -699,6 +699,8 @@ def oracle_c03(tr, sc):
             if k.type in ('residual_post_iteration', 'residual_post_step', 'niter'):
                 lookup[(k.type, k.process, fbits(k.time), k.iter if k.type != 'residual_post_step' else None)] = v
         for rec in ctx.shadow_recs:
+            if rec['at'] == 'post_sweep':
+                continue
             typ = 'residual_post_iteration' if rec['at'] == 'post_iteration' else 'residual_post_step'
             key = (typ, rec['slot'], fbits(rec['time']), rec['iter'] if typ != 'residual_post_step' else None)
             if key in lookup and fbits(lookup[key]) != fbits(rec['reported']):
@@ -753,6 +755,20 @@ def oracle_c01(tr, sc):
                 f"step at t={a['t']!r} dt={a['dt']!r} (block {a['block']} slot {a['slot']}, iter {a['iter']}): |uend - collocation solution| = {err:.3e} > kappa_end*defect + rounding = {bound:.3e} (defect {tau:.3e}, kappa_end {kend:.2e}, converged={converged})",
                 converged=converged,
             )
+        # the premise as the user sees it: the step was iterated to its residual tolerance (reported residual <= restol)
+        rtype = cfg['level'].get('residual_type', 'full_abs')
+        if converged and rtype in ('full_abs', 'full_rel') and restol > 0:
+            u0n = float(np.max(np.abs(np.asarray(a['u0_post'])))) if np.asarray(a['u0_post']).size else 0.0
+            tol_abs = restol if rtype == 'full_abs' else restol * u0n
+            bound2 = kend * (tol_abs * (1 + 1e-6) + 64 * EPS * rec['S']) + 256 * EPS * (kappa + 1) * (1 + a['dt'] * normA) * max(Un, 1e-300) * (len(uref) ** 0.5 + 1)
+            if err > bound2 and a['iter'] == 0 and cfg['controller'].get('predict_type') is None:
+                V('stopped_without_sweep', 'CheckConvergence.check_convergence', f"step at t={a['t']!r} was declared converged at iteration 0 without any sweep (residual of the unswept initial guess {rec['reported']:.3e} <= restol) and its end value is not the collocation solution (error {err:.3e})", kind='zero_sweeps_iter0')
+            elif err > bound2:
+                V(
+                    'converged_but_not_collocation_solution',
+                    'end value',
+                    f"step at t={a['t']!r} (block {a['block']} slot {a['slot']}) reported residual {rec['reported']:.3e} <= restol {restol:.3e}, but |uend - collocation solution| = {err:.3e} > kappa_end*restol + rounding = {bound2:.3e}",
+                )
     if acc and not same_bytes(tr.ret_copy, acc[-1]['uend']):
         V('returned_value', 'run', 'returned value is not the end value of the last step')
 
@@ -789,3 +805,42 @@ def oracle_c03_injected(tr, sc):
             V('stopped_without_sweep', 'CheckConvergence.check_convergence', f'block {b} slot {s} declared finished at iteration 0 without any sweep', kind='zero_sweeps_iter0')
         if a['iter'] != a['niter_cb']:
             V('niter_mismatch', 'DefaultHooks.post_step', f'status.iter {a["iter"]} vs {a["niter_cb"]} iterations performed')
+
+
+# =========================================================================================================== C13
+def oracle_c13(tr, sc):
+    """Run-level clause: the caller's initial value is never modified; whatever a run returned or logged is unchanged by
+    later steps of the same run and by later runs on the same controller.  Evaluated after the last leg."""
+    res = tr.res
+    V = lambda clause, site, detail, **ident: res.violate('C13', clause, site, detail, ident=ident)  # noqa: E731
+    for leg in tr.legs:
+        if leg.exc is not None and leg.exc[0] not in ('ConvergenceError', 'StepCapExceeded'):
+            V('unexpected_exception', leg.exc[0], leg.exc[1])
+            return
+        if not same_bytes(leg.u0_before, leg.u0_after):
+            V('caller_u0_modified', 'controller.run', f'leg {leg.leg}: the initial value object passed by the caller was modified during run()')
+        # the object itself, now (after all later legs)
+        if not same_bytes(leg.u0_before, np.array(leg.u0_obj)):
+            V('caller_u0_modified', 'controller.run', f'leg {leg.leg}: the initial value object passed by the caller was modified by a later run on the same controller', later=True)
+        if leg.ret is not None and not same_bytes(leg.ret_copy, np.array(leg.ret)):
+            V('returned_value_changed', 'controller.run', f'leg {leg.leg}: the returned solution object changed after it was returned')
+        n = 0
+        for w in getattr(leg.ctx, 'stat_writes', []):
+            kind, key, value, hook, seq, dig = w
+            if dig is None:
+                continue
+            n += 1
+            if bdigest(value) != dig:
+                V('logged_value_changed', hook, f"leg {leg.leg}: the array logged as {key.type!r} at time {key.time!r} (process {key.process}, iter {key.iter}) was changed after it was logged", type=key.type)
+        if n:
+            res.probe('logged_arrays_checked', n)
+        # end values of finished steps are frozen until the end of their block
+        for b in leg.ctx.blocks:
+            for f, a in zip(b.get('final', []), [x for x in leg.ctx.attempts if x['block'] == b['index']]):
+                pass
+    for leg in tr.legs:
+        for a in leg.ctx.attempts:
+            if a.get('post') and a.get('uend_obj') is not None and a.get('uend') is not None:
+                if not same_bytes(a['uend'], np.array(a['uend_obj'])):
+                    V('step_end_value_changed', 'Level.uend', f"leg {leg.leg} block {a['block']} slot {a['slot']}: the end value object a finished step held at post_step was modified later")
+                    break
